@@ -75,6 +75,7 @@ func runBloom(rep *vk.Report, r *rand.Rand, idx int, _ bool) (uint64, bool) {
 		}
 	}
 	rep.Count("bloom_nonmember_probes", probes)
+	sampleOps = []string{fmt.Sprintf("bloom.New(%d,%d); %d Add (e.g. %#x); every added hash tests true; %d of %d other hashes test true", m, k, n, append(order, 0)[0], fp, probes)}
 	rep.Count("bloom_false_positives", fp)
 	return h, n > 0 && fp < probes
 }
@@ -230,6 +231,7 @@ func runRoaring(rep *vk.Report, r *rand.Rand, idx int, _ bool) (uint64, bool) {
 		rep.Count("roaring_too_large_refused", 1)
 	}
 	rep.Count("roaring_ops", ops)
+	sampleOps = append([]string{fmt.Sprintf("(%d operations on %d bitmaps, dense=%v)", ops, nb, dense)}, tail(last, 10)...)
 	return h, pos > 0 && neg > 0
 }
 
@@ -350,6 +352,7 @@ func runShmap(rep *vk.Report, r *rand.Rand, idx int, _ bool) (uint64, bool) {
 			}
 		}
 		rep.Count("shmap_ops", ops)
+		sampleOps = append([]string{fmt.Sprintf("(NewMapMeth, hash mode %d, %d operations)", mode, ops)}, tail(last, 10)...)
 		return h, pos > 0 && neg > 0
 	}
 	m := shmap.NewMapFuncs[hkey, hval](func(k hkey) uint64 { return hostileHash(mode, k.id) }, func(x, y hkey) bool { return x.id == y.id })
@@ -479,6 +482,7 @@ func runShmap(rep *vk.Report, r *rand.Rand, idx int, _ bool) (uint64, bool) {
 		return h, true
 	}
 	rep.Count("shmap_ops", ops)
+	sampleOps = append([]string{fmt.Sprintf("(NewMapFuncs, hash mode %d, %d operations, %d entries at the end)", mode, ops, len(model))}, tail(last, 10)...)
 	return h, pos > 0 && neg > 0
 }
 
@@ -663,6 +667,7 @@ func runLru(rep *vk.Report, r *rand.Rand, idx int, _ bool) (uint64, bool) {
 		viol("stats-wrong", fmt.Sprintf("Stats()=(%d,%d), the history had %d gets of which %d hit", hs, ms, gets, hits))
 	}
 	rep.Count("lru_ops", ops)
+	sampleOps = append([]string{fmt.Sprintf("(lrucache.New(%d) => capacity %d, hash mode %d, %d operations)", req, size, mode, ops)}, tail(last, 10)...)
 	rep.Seen("lru_sizes", fmt.Sprint(size))
 	return h, pos > 0 && neg > 0
 }
@@ -722,6 +727,7 @@ func runCache(rep *vk.Report, r *rand.Rand, idx int, _ bool) (uint64, bool) {
 	sort.Ints(keys)
 	distinct := len(slices.Compact(keys))
 	rep.Count("cache_gets", ops)
+	sampleOps = append([]string{fmt.Sprintf("(cache of f(k)=k*7919+%d, conc=%v, %d gets, %d getter calls)", salt, conc, ops, calls)}, tail(last, 10)...)
 	rep.Count("cache_getter_calls", calls)
 	rep.Count("cache_immediate_repeats", repeats)
 	rep.Count("cache_immediate_repeat_hits", repeatHits)
